@@ -301,6 +301,89 @@ theorem single_auth (s : St) (hi : Init s) (es : List Nat) :
     (run s es).auth = c_auth_none ∨ (run s es).auth = lastAuth s c_auth_none es :=
   single_auth_gen s hi.1 c_auth_none (Or.inl hi.2) es
 
+/-! ### Rule 3 (counting form): at most ten wrong PUKs, over every history -/
+
+/-- wrong-PUK events that hit a live PUK counter (in `puk0` the event is accepted but there is nothing left to count) -/
+def pukBadCount (s : St) : List Nat → Nat
+  | [] => 0
+  | e :: es => (if e = c_puk_bad ∧ s.pin ≠ c_puk0 then 1 else 0) + pukBadCount (next s e) es
+
+/-- blocked, and neither PUK nor PIN authentication is held -/
+abbrev BInv (s : St) : Prop := Blocked s.pin ∧ s.auth ≠ c_auth_puk ∧ s.auth ≠ c_auth_pin
+
+theorem puk_strike_tab : ∀ p < pinCount, ∀ a < authCount, ∀ e < eventCount,
+    BInv ⟨p, a⟩ → e ≠ c_puk_ok →
+    BInv (next ⟨p, a⟩ e) ∧ (if e = c_puk_bad ∧ p ≠ c_puk0 then 1 else 0) + (next ⟨p, a⟩ e).pin ≤ p := by
+  decide
+
+theorem puk_strike_step (s : St) (hv : Valid s) (hb : BInv s) (e : Nat) (he : e ≠ c_puk_ok) :
+    BInv (next s e) ∧ (if e = c_puk_bad ∧ s.pin ≠ c_puk0 then 1 else 0) + (next s e).pin ≤ s.pin := by
+  by_cases hlt : e < eventCount
+  · exact puk_strike_tab s.pin hv.1 s.auth hv.2 e hlt hb he
+  · have hne : e ≠ c_puk_bad := by unfold eventCount at hlt; unfold c_puk_bad; omega
+    have hs : next s e = s := by simp [next, step_not_event s e (by omega)]
+    rw [hs]; exact ⟨hb, by simp [hne]⟩
+
+/-- **Rule 3 (counting form).** From a blocked state held without PUK authentication, in every
+history that contains no correct-PUK event the PIN stays blocked, and the number of wrong PUKs
+counted plus the PUK attempts still left never exceeds the attempts left at the start. -/
+theorem puk_strikes (s : St) (hv : Valid s) (hb : BInv s) (es : List Nat) (h : c_puk_ok ∉ es) :
+    BInv (run s es) ∧ pukBadCount s es + (run s es).pin ≤ s.pin := by
+  induction es generalizing s with
+  | nil => exact ⟨hb, by simp [pukBadCount, run]⟩
+  | cons e es ih =>
+    have he : e ≠ c_puk_ok := fun hh => h (by simp [hh])
+    have h1 := puk_strike_step s hv hb e he
+    have h2 := ih (next s e) (valid_next s hv e) h1.1 (fun hh => h (List.mem_cons_of_mem _ hh))
+    refine ⟨h2.1, ?_⟩
+    simp only [pukBadCount, run]
+    omega
+
+/-- never more than ten counted wrong PUKs in such a history … -/
+theorem puk_strikes_count (s : St) (hv : Valid s) (hb : BInv s) (es : List Nat) (h : c_puk_ok ∉ es) :
+    pukBadCount s es ≤ 10 := by
+  have h1 := (puk_strikes s hv hb es h).2
+  have h2 : s.pin ≤ 10 := hb.1
+  omega
+
+/-- … and when all attempts that were left have been used the token is in `puk0`, for ever
+(whatever follows, correct PUKs included): -/
+theorem puk_strikes_terminated (s : St) (hv : Valid s) (hb : BInv s) (es : List Nat) (h : c_puk_ok ∉ es)
+    (hc : pukBadCount s es = s.pin) (fs : List Nat) : (run (run s es) fs).pin = c_puk0 := by
+  have h1 := (puk_strikes s hv hb es h).2
+  exact terminated_permanent (run s es) (valid_run s hv es) (by unfold c_puk0; omega) fs
+
+/-! ### The PIN state rises only through an accepted unlock event -/
+
+/-- accepted event that may raise the PIN state: correct PIN, correct CAN, correct PUK, activation, deactivation -/
+def isUnlock (e : Nat) : Bool :=
+  e == c_pin_ok || e == c_can_ok || e == c_puk_ok || e == c_pin_activate || e == c_pin_deactivate
+
+theorem pin_rise_tab : ∀ p < pinCount, ∀ a < authCount, ∀ e < eventCount,
+    p < (next ⟨p, a⟩ e).pin → isUnlock e = true ∧ accepted ⟨p, a⟩ e = true := by decide
+
+/-- every step that increases the PIN state is an accepted unlock event; wrong passwords,
+`can_bad`, `auth_close` and non-events never do -/
+theorem pin_rise_only_by_unlock (s : St) (hv : Valid s) (e : Nat) (h : s.pin < (next s e).pin) :
+    isUnlock e = true ∧ accepted s e = true := by
+  by_cases hlt : e < eventCount
+  · exact pin_rise_tab s.pin hv.1 s.auth hv.2 e hlt h
+  · rw [show next s e = s by simp [next, step_not_event s e (by omega)]] at h; omega
+
+/-- over every history without unlock events the PIN state is non-increasing -/
+theorem pin_monotone (s : St) (hv : Valid s) (es : List Nat) (h : ∀ e ∈ es, isUnlock e = false) :
+    (run s es).pin ≤ s.pin := by
+  induction es generalizing s with
+  | nil => simp [run]
+  | cons e es ih =>
+    have h1 : (next s e).pin ≤ s.pin := by
+      by_cases hr : s.pin < (next s e).pin
+      · have := (pin_rise_only_by_unlock s hv e hr).1
+        rw [h e (by simp)] at this; exact absurd this (by decide)
+      · omega
+    have h2 := ih (next s e) (valid_next s hv e) (fun x hx => h x (List.mem_cons_of_mem _ hx))
+    simp only [run]; omega
+
 /-! ### Non-vacuity: the hypotheses are inhabited by non-trivial histories -/
 
 example : Init ⟨c_pin3, c_auth_none⟩ := by decide
@@ -311,5 +394,11 @@ example : (run ⟨c_pin3, c_auth_none⟩ [c_pin_bad, c_pin_bad, c_can_ok, c_pin_
 example : Susp (run ⟨c_pin3, c_auth_none⟩ [c_pin_bad, c_pin_bad]) := by decide
 example : lastAuth ⟨c_pin3, c_auth_none⟩ c_auth_none [c_pin_ok, c_can_ok, c_pin_bad] = c_auth_can := by decide
 example : (run ⟨c_pin3, c_auth_none⟩ [c_pin_ok, c_can_ok, c_pin_bad]).auth = c_auth_can := by decide
+
+-- ten wrong PUKs with CAN traffic and a session close in between: terminated, and a correct PUK no longer helps
+example : BInv ⟨c_pin0, c_auth_none⟩ := by decide
+example : pukBadCount ⟨c_pin0, c_auth_none⟩ (List.replicate 5 c_puk_bad ++ [c_can_ok, c_auth_close] ++ List.replicate 5 c_puk_bad) = 10 := by decide
+example : (run ⟨c_pin0, c_auth_none⟩ (List.replicate 5 c_puk_bad ++ [c_can_ok, c_auth_close] ++ List.replicate 5 c_puk_bad ++ [c_puk_ok])).pin = c_puk0 := by decide
+example : (run ⟨c_pin3, c_auth_none⟩ [c_pin_bad, c_can_bad, c_pin_bad, c_auth_close]).pin < c_pin3 := by decide
 
 end Bee2V.C20
